@@ -264,6 +264,8 @@ fn mle_cases(seed: u64, n: usize) -> Vec<(f64, u64, &'static str, usize, usize, 
         ("low_j", 50, 2000, 3000),
         ("high_j", 2000, 30, 20),
         ("small_unequal", 2, 1, 30),
+        ("empty_vs_some", 0, 0, 40),
+        ("empty_vs_empty", 0, 0, 0),
     ];
     let mut rng = rng_from(seed);
     let mut v = Vec::new();
@@ -284,7 +286,7 @@ pub fn child_mle(a: &[String]) -> i32 {
     let mut rng = rng_from(mix(&[seed, 77]));
     for (i, (b, m, shape, both, ao, bo, u16reg)) in cases.iter().enumerate() {
         let ntot = both + ao + bo;
-        let (av, q) = setsketch_a_q(*b, *m, ntot as f64, 1e-6);
+        let (av, q) = setsketch_a_q(*b, *m, ntot.max(1) as f64, 1e-6);
         let q = if *u16reg { q.min(65534) } else { q };
         let params = SetSketchParams::new(*b, *m, av, q);
         let ids = fresh_ids(&mut rng, ntot, 0);
@@ -295,15 +297,23 @@ pub fn child_mle(a: &[String]) -> i32 {
         let res = if *u16reg {
             let mut s1 = SetSketcher::<u16, u64, FnvHasher>::new(params, Default::default());
             let mut s2 = SetSketcher::<u16, u64, FnvHasher>::new(params, Default::default());
-            s1.sketch_slice(&sa).unwrap();
-            s2.sketch_slice(&sb).unwrap();
+            for x in &sa {
+                s1.sketch(x).unwrap();
+            }
+            for x in &sb {
+                s2.sketch(x).unwrap();
+            }
             let (g1, g2) = (s1.get_signature().clone(), s2.get_signature().clone());
             (catch(std::panic::AssertUnwindSafe(|| mle.get_mle(&g1, &g2))), catch(std::panic::AssertUnwindSafe(|| mle.get_mle(&g2, &g1))))
         } else {
             let mut s1 = SetSketcher::<u32, u64, FnvHasher>::new(params, Default::default());
             let mut s2 = SetSketcher::<u32, u64, FnvHasher>::new(params, Default::default());
-            s1.sketch_slice(&sa).unwrap();
-            s2.sketch_slice(&sb).unwrap();
+            for x in &sa {
+                s1.sketch(x).unwrap();
+            }
+            for x in &sb {
+                s2.sketch(x).unwrap();
+            }
             let (g1, g2) = (s1.get_signature().clone(), s2.get_signature().clone());
             (catch(std::panic::AssertUnwindSafe(|| mle.get_mle(&g1, &g2))), catch(std::panic::AssertUnwindSafe(|| mle.get_mle(&g2, &g1))))
         };
